@@ -157,7 +157,7 @@ Lemma parse_lines_data : forall ls acc tail,
 Proof.
   induction ls as [|l t IH]; intros acc tail H; [reflexivity|].
   inversion H as [|? ? Hl Ht]; subst. cbn [map app].
-  unfold render_line at 1. cbn [app]. cbn [parse_lines].
+  unfold render_line at 1. cbn [app]. cbn [parse_lines]. change (58 =? 58) with true. cbv iota.
   change (58 :: hex_upper (l_raw l) ++ [13; 10]) with (render_line (l_raw l)).
   rewrite (parse_render_line l Hl). cbn [bind].
   destruct Hl as (_ & _ & _ & Hty & _).
@@ -174,14 +174,14 @@ Proof.
   rewrite <- (app_nil_r (render_line (raw_of 0 255 [] []))) at 1.
   rewrite lines_of_render. cbn [lines_of].
   (* start marker *)
-  unfold render_line at 1. cbn [app parse_lines].
+  unfold render_line at 1. cbn [app parse_lines]. change (58 =? 58) with true. cbv iota.
   change (58 :: hex_upper (raw_of 0 254 [] []) ++ [13; 10]) with (render_line (raw_of 0 254 [] [])).
   assert (S : parse_data_line (render_line (raw_of 0 254 [] [])) = Ok (mkLine 254 0 [] (raw_of 0 254 [] []))).
   { unfold render_line, raw_of. apply parse_rendered_line; try reflexivity. left. reflexivity. }
   rewrite S. cbn [bind l_type]. change (254 =? 255) with false. change (254 =? 254) with true. cbv iota.
   rewrite parse_lines_data by exact H. rewrite app_nil_r.
   (* end marker *)
-  unfold render_line at 1. cbn [app parse_lines].
+  unfold render_line at 1. cbn [app parse_lines]. change (58 =? 58) with true. cbv iota.
   change (58 :: hex_upper (raw_of 0 255 [] []) ++ [13; 10]) with (render_line (raw_of 0 255 [] [])).
   assert (E : parse_data_line (render_line (raw_of 0 255 [] [])) = Ok (mkLine 255 0 [] (raw_of 0 255 [] []))).
   { unfold render_line, raw_of. apply parse_rendered_line; try reflexivity. left. reflexivity. }
